@@ -297,10 +297,11 @@ int main(int argc, char **argv)
 #ifndef __AVX512__
             if (b == B_AVX512) continue;
 #endif
-            for (size_t bs : {(size_t)1000, (size_t)1 << 16, (size_t)1 << 20, (size_t)1 << 22, (size_t)1 << 31, (size_t)1 << 40})
+            for (size_t bs : {(size_t)1000, (size_t)1 << 16, (size_t)1 << 20, (size_t)1 << 22, (size_t)1 << 31, (size_t)1 << 40, (size_t)1 << 62, (size_t)0x5555555555555556ULL, (size_t)0x5555555555555557ULL,
+                              (size_t)0x7FFFFFFFFFFFFFFFULL, (size_t)0x8000000000000000ULL, (size_t)0x8000000000000003ULL})
                 for (size_t r : {(size_t)2, (size_t)4})
-                    for (size_t cc : {(size_t)3, (size_t)9})
-                        for (size_t d : {(size_t)1, (size_t)3})
+                    for (size_t cc : {(size_t)3, (size_t)9, (size_t)10})
+                        for (size_t d : {(size_t)1, (size_t)2, (size_t)3})
                         {
                             cases.push_back({b, r, cc, d, (int)(1 + (bs >> 16) % 3), bs, (int)((r + cc) % 3), 0});
                             added++;
